@@ -121,6 +121,8 @@ fn gen(seed: u64, idx: u64, _tier: Tier) -> Plan {
         }
         let _ = idx;
     }
+    // (a validity window must contain the midpoint after the clock has been set back, too)
+    wall_steps(&mut rng, &mut plan);
     settle(&mut plan, 500);
     plan
 }
